@@ -94,10 +94,24 @@ func (env *SpecEnv) refFact(v Term, typ types.Type, heapTerm Term) {
 		return
 	}
 	isSlice := false
-	switch typ.Underlying().(type) {
+	switch tt := typ.Underlying().(type) {
 	case *types.Pointer, *types.Map, *types.Chan, *types.Signature:
 	case *types.Slice:
 		isSlice = true
+	case *types.Basic:
+		// integer-typed heap cells hold values of their type's range
+		if tt.Info()&types.IsInteger == 0 {
+			return
+		}
+		lo, hi := intRange(tt)
+		hs := env.vc().sortOfHeapTerm(heapTerm)
+		axiom := ""
+		if strings.HasPrefix(hs, "(Array Int Int") || hs == "(Array Int Int)" {
+			e := sel(heapTerm, "r!w")
+			axiom = fmt.Sprintf("(forall ((r!w Int)) (! (and (<= %s %s) (<= %s %s)) :pattern (%s)))", lo, e, e, hi, e)
+		}
+		*env.facts = append(*env.facts, and(sx("<=", lo, v), sx("<=", v, hi))+"\x00"+axiom)
+		return
 	default:
 		return
 	}
@@ -943,6 +957,15 @@ func (env *SpecEnv) callExpr(c *ast.CallExpr) (*Val, error) {
 			return nil, fmt.Errorf("visited(): loop is not a map range")
 		}
 		return boolVal(sel(env.heap(name, arrSort(ks, SBool)), env.rvalue(k).T)), nil
+	case "visitedcount":
+		if env.li == nil {
+			return nil, fmt.Errorf("visitedcount() outside loop invariant")
+		}
+		name, _ := env.fr.loopVisHeap(env.li)
+		if name == "" {
+			return nil, fmt.Errorf("visitedcount(): loop is not a map range")
+		}
+		return mathInt(env.heap(name+"#count", SInt)), nil
 	case "int":
 		return arg(0)
 	case "sameheap":
